@@ -244,6 +244,7 @@ def build(pid, P, R, tier, log_dir):
         obs.append(mod_decls_ob(P, R, mp, log_dir, 2 if tier == "quick" else 3))
     if pid == "C15":
         obs.append(add_rust_crate_ob(P, R, mp, log_dir))
+        obs.append(generate_writes_ob(P, R, mp, log_dir, tier))
     if pid == "C17":
         obs.append(hook_select_ob(P, R, mp, log_dir, 2 if tier == "quick" else 3))
     if pid == "C16":
@@ -444,6 +445,19 @@ def cargo_toml_ob(P, R, mp, log_dir, bound, pid):
             nmap = o.state.facts.get("len:g.6", 0)
             want = []
             feats = (["web"] if flags["axum"] else []) + (["json"] if flags["serde"] else [])
+            # naming: [package] name and the [[bin]] / [lib] name are the project's own name, unmodified
+            reps = [e for e in o.state.events if e[0].endswith("replace") and len(e[1]) == 3 and "{name}" in e[1][1]]
+            if len(reps) != 1 or reps[0][1][2] != "sym<g.1:String>":
+                bad.append(f"the target table is named {[e_[1][2][:60] for e_ in reps]}, documented: the project's name as given")
+            finals = [e for e in o.state.events if e[0].endswith("Arguments::new") and "[package]" in e[1][0]]
+            by_res_ = {e[2]: e for e in o.state.events}
+            if finals:
+                a0 = re.findall(r"sym<(ev\d+):Argument>", finals[-1][1][1])
+                first = by_res_.get(a0[0]) if a0 else None
+                if not first or first[1][0] != "sym<g.1:String>":
+                    bad.append(f"[package] name is {first and first[1][0][:60]}, documented: the project's name as given")
+            else:
+                bad.append("the manifest template ([package] ..) is not instantiated on this path")
             if len(lines) < 2 or lines[0][0] != "fmt" or "incan_stdlib = { path" not in lines[0][1] or lines[1][0] != "fmt" or "incan_derive = { path" not in lines[1][1]:
                 bad.append(f"the table does not start with incan_stdlib and incan_derive by path: {lines[:2]}")
                 continue
@@ -546,6 +560,12 @@ def cargo_native(log_dir, pid, only_wild=False):
             rc, out, _, to = common.run([binp, "cargotoml", os.path.join(common.WORK_DIR, "cargotoml")], timeout=120)
             deps = {m.group(1): m.group(2) for m in re.finditer(r"^DEPS (\S+) (.*)$", out, re.M)}
             refused = {m.group(1): m.group(2).split(",") for m in re.finditer(r"^REFUSED (\S+) (.*)$", out, re.M)}
+            if not only_wild and k == 0:
+                if re.search(r"^REBUILD stale", out, re.M):
+                    problems.append(f"[{prof}] rebuild into the same directory: Cargo.toml still declares the previous build's crates")
+                nm = re.search(r"^NAMES (.*)$", out, re.M)
+                if nm and set(nm.group(1).split("|")) != {'name = "hello-world"'}:
+                    problems.append(f"[{prof}] project `hello-world`: package / binary are named {nm.group(1)}")
             if to or rc != 0 or len(deps) < 5:
                 raise Inconclusive(f"replay cargotoml failed (rc={rc}): {out[-200:]}")
             outs.append(deps)
@@ -1248,3 +1268,55 @@ def test_filter_ob(P, R, mp, log_dir):
                 bad.append(f"selected={got} although -k given={wrong['hf']}, name matches={wrong['kw']}, @slow={wrong['sl']}, --slow={wrong['inc']}")
         return result_of("X-test_filter", r, bad, n, len(outs), t0, lambda: testrun_native(log_dir))
     return mp.XOb("X-test_filter", statement, "", run)
+
+
+def generate_writes_ob(P, R, mp, log_dir, tier="quick"):
+    statement = ("ProjectGenerator::generate / generate_multi: every successful call WRITES Cargo.toml, and what it writes is the manifest just generated for "
+                 "this program (never a stale or skipped manifest), and writes the main source it was given")
+
+    def run():
+        t0 = time.time()
+        bad, n, enc = [], 0, set()
+        for fname, extra in ((">::generate", []),) + (((">::generate_multi", ["mods"]),) if tier != "quick" else ()):
+            cands_ = [v for k_, v in P.fns.items() if k_.endswith(fname) and k_.startswith("project::")]
+            if len(cands_) != 1:
+                raise Inconclusive(f"ProjectGenerator{fname[1:]} not found in the MIR dump")
+            f = cands_[0]
+            ex = slice_executor(P, R, 1, (r"generate_cargo_toml$", r"fs::", r"Path", r"PathBuf", r"str>::", r"String::", r"fmt::format", r"^format$", r"HashMap::", r"HashSet::",
+                                            r"Vec::", r"slice::", r"Iterator>::", r"IntoIterator>::", r"sort", r"Option::", r"Deref>::deref$", r"AsRef"))
+            ex.tolerate_unsupported = True
+            g = ex.sym_value("backend::project::ProjectGenerator", "g")
+            args = [g, Opaque("code")] + [Opaque(x) for x in extra]
+            try:
+                outs = ex.run(f, args)
+            except (Unsupported, symex.PathExplosion) as x:
+                bad.append(f"{fname[3:]}: not executable by the model: {str(x)[:120]}")
+                continue
+            enc |= set(ex.encoded)
+            prefetch(mp, ex, [o.pc for o in outs])
+            for o in outs:
+                if not feasible(mp, ex, o.pc):
+                    continue
+                n += 1
+                if o.kind != "return":
+                    if o.kind == "unsupported" or "attempt to compute" in str(o.info):
+                        continue        # position arithmetic on uninterpreted text positions: outside
+                    bad.append(f"{fname[3:]}: {o.kind}: {o.info}")
+                    continue
+                if not mirx.show(o.value, ex, o.state).startswith("Result::Ok"):
+                    continue
+                evs = o.state.events
+                gen = [e for e in evs if e[0].endswith("generate_cargo_toml")]
+                writes = [e for e in evs if e[0].endswith("fs::write")]
+                manifest = [w for w in writes if gen and f"sym<{gen[-1][2]}:String>" in " ".join(w[1])]
+                if len(gen) != 1:
+                    bad.append(f"{fname[3:]}: the manifest is generated {len(gen)} times on a successful path")
+                elif not manifest:
+                    bad.append(f"{fname[3:]}: a successful path does not write the manifest it generated (writes: {[w[1][1][:30] for w in writes]})")
+                elif not any("Cargo.toml" in " ".join(by[1]) for by in evs if by[0].endswith("join") and any(by[2] in a for a in manifest[0][1])):
+                    bad.append(f"{fname[3:]}: the generated manifest is written to {manifest[0][1][0][:60]}, not to <out>/Cargo.toml")
+        r = {"id": "X-generate_writes", "engine": "E2-X mirsmt", "statement": statement,
+             "bound": "the single-file project writer (thorough: also the flat multi-file one; generate_nested is outside: its path count explodes) with the file system, path arithmetic, containers and text surgery as uninterpreted calls (loops over modules: 0..=1 iteration)",
+             "functions_encoded": sorted(n_ + " (MIR)" for n_ in enc)}
+        return result_of("X-generate_writes", r, bad, n, n, t0, lambda: cargo_native(log_dir, "C15"))
+    return mp.XOb("X-generate_writes", statement, "", run)
